@@ -252,7 +252,7 @@ class World:
         st = 'pm_of_list ' + lst([f'({self.it.i(k)}, {self.charger_state(v)})' for k, v in css])
         onshift = lst([str(x) for x in sorted(self.it.i(c) for c in s.on_shift_access_chargers)])
         return (f'(mkStation {self.it.i(s.id)} {self.pos(s.position)} {self.mem(s.membership)} ({st}) '
-                f'{qtxt(s.energy_dispensed[EnergyType.ELECTRIC])} {qtxt(s.energy_dispensed[EnergyType.GASOLINE])} {onshift} {qtxt(s.balance)})')
+                f'{qtxt(s.energy_dispensed.get(EnergyType.ELECTRIC, -1.0))} {qtxt(s.energy_dispensed.get(EnergyType.GASOLINE, -1.0))} {onshift} {qtxt(s.balance)})')
     def base(self, b):
         sid = f'(Some {self.it.i(b.station_id)})' if b.station_id else 'None'
         return (f'(mkBase {self.it.i(b.id)} {self.pos(b.position)} {self.mem(b.membership)} {ztxt(b.total_stalls)} '
@@ -319,7 +319,7 @@ class World:
     def fp_station(self, s):
         css = [v for _, v in sorted(s.state.items(), key=lambda kv: self.it.i(kv[0]))]
         return self.TL([self.TP(self.it.i(s.id)), self.fp_pos(s.position), self.fp_mem(s.membership), self.TL([self.fp_cs(c) for c in css]),
-                        self.TQ(s.energy_dispensed[EnergyType.ELECTRIC]), self.TQ(s.energy_dispensed[EnergyType.GASOLINE]), self.TQ(s.balance)])
+                        self.TQ(s.energy_dispensed.get(EnergyType.ELECTRIC, -1.0)), self.TQ(s.energy_dispensed.get(EnergyType.GASOLINE, -1.0)), self.TQ(s.balance)])   # -1: the key is missing
     def fp_base(self, b):
         return self.TL([self.TP(self.it.i(b.id)), self.fp_pos(b.position), self.fp_mem(b.membership), self.TZ(b.total_stalls), self.TZ(b.available_stalls),
                         self.TP(self.it.i(b.station_id)) if b.station_id else 'TZ 0'])
@@ -516,12 +516,30 @@ def run_case_impl(w, n_ops, stream, observers=(), fixed_ops=None):
             break
         reports = w.reporter.take()
         w.history.append(w.sim)
-        expected = w.TL([w.TZ(status), w.fp_sim(w.sim), w.fp_events(reports)])
+        try:
+            expected = w.TL([w.TZ(status), w.fp_sim(w.sim), w.fp_events(reports)])
+        except CaseError:
+            raise
+        except Exception as ex:
+            # the state the implementation produced cannot even be read back (a field of the wrong shape, a missing key):
+            # the case ends here and the op is reported against every property of the step alphabet
+            import stepmodel
+            for prop in stepmodel.STEP_PROPS:
+                violations.append((k, (prop, 'state_unreadable', {'exception': type(ex).__name__, 'message': str(ex)[:120], 'op': op[0]})))
+            w.history.pop(); ops.pop()
+            break
         steps.append(f'({optxt}, {expected})')
         w.expected.append(expected)
         w.reports_log.append(reports)
         for ob in observers:
-            for msg in ob(w, k, op, before, w.sim, reports):
+            try:
+                msgs = ob(w, k, op, before, w.sim, reports)
+            except Exception as ex:
+                import re as _re
+                _m = _re.match(r'c(\d\d)_', getattr(ob, '__name__', ''))
+                msgs = [(p_, 'monitor_could_not_read_state', {'monitor': getattr(ob, '__name__', type(ob).__name__), 'exception': type(ex).__name__, 'message': str(ex)[:120]})
+                        for p_ in ([f'C{_m.group(1)}'] if _m else ['C03', 'C05', 'C19'])]
+            for msg in msgs:
                 violations.append((k, msg))
     if ORACLES.conflicts:
         raise CaseError('oracle conflict (same key, two answers)')
